@@ -343,7 +343,6 @@ fn encode_section(
     // FIXME: Each of these calls end up calling `Vec::reserve`
     // We could instead use a `Cursor<&mut [u8]>`, but we would need to be a bit
     // more careful here around safety
-    bytes.put_u32(chrom_id)?;
     for i__1 in 0..items_in_section.len() 
         invariant
             
@@ -354,6 +353,7 @@ fn encode_section(
             assert(items_in_section@.subrange(0, i__1 + 1).drop_last() =~= items_in_section@.subrange(0, i__1 as int));
         }
         let ghost b0 = bytes@;
+        bytes.put_u32(chrom_id)?;
         bytes.put_u32(item.start)?;
         bytes.put_u32(item.end)?;
         bytes.put_bytes(item.rest.as_slice())?;
